@@ -66,6 +66,11 @@ func deadlineEqualityOnce(r *Rng, T time.Duration) ([]*dirProbe, bool) {
 		{name: "200 bytes at once", first: 200},
 		{name: "nothing at all", first: 0},
 		{name: "49 bytes, 50th byte at 0.5 T", first: 49, later: 1, at: T / 2},
+		// "whatever the content or length": long probes, around and beyond one maximal chunk, at once and in two parts
+		{name: "16434 bytes at once", first: 16434},
+		{name: "20000 bytes at once", first: 20000},
+		{name: "70000 bytes at once", first: 70000},
+		{name: "200 bytes, 40000 more at 0.5 T", first: 200, later: 40000, at: T / 2},
 	}
 	var wg sync.WaitGroup
 	for _, p := range probes {
